@@ -358,6 +358,13 @@ func classifyKeySlice(prog *Program, fn *ssa.Function, src *ssa.Call) (bool, str
 				if sameSeq(x.X, src, cell) {
 					uses = append(uses, use{x, b})
 				}
+			case *ssa.Return:
+				// handing the keys to the caller is a use: whoever gets them walks them in the order they have here
+				for _, rv := range x.Results {
+					if sameSeq(rv, src, cell) {
+						uses = append(uses, use{x, b})
+					}
+				}
 			case *ssa.Call:
 				if _, ok := isSortCall(x); ok && len(x.Call.Args) > 0 && sameSeq(x.Call.Args[0], src, cell) {
 					sorts = append(sorts, x)
